@@ -6,6 +6,7 @@ pub mod c03;
 pub mod c04;
 pub mod c11;
 pub mod c13;
+pub mod c14;
 pub mod c17;
 pub mod c18;
 pub mod c19;
@@ -54,6 +55,7 @@ dispatch! {
     "C04" => c04,
     "C11" => c11,
     "C13" => c13,
+    "C14" => c14,
     "C17" => c17,
     "C18" => c18,
     "C19" => c19,
